@@ -53,7 +53,9 @@ SPEC = {
             "same decision is taken under several map iteration orders) + 0-3 random `put`s + 4-14 `scatter` calls "
             "(a quarter of them preceded by 1-3 dry repetitions) over "
             "random regions and groups g1/g2/none on ONE RegionScatterer (its counters accumulate; a produced operator "
-            "is usually applied to the region description before the next call) with `counters` dumps + 2-5 calls "
+            "is usually applied to the region description before the next call) with `counters` dumps + 1-3 `scatter2` "
+            "(two overlapping requests on the one scatterer: X is parked on its own goroutine inside selectCandidates, "
+            "right after it built its filter list, Y runs completely, X is released) + 2-5 calls "
             "of balance-region / balance-leader / shuffle-region / shuffle-leader / evict-leader / grant-leader / label "
             "/ scatter-range (6 Schedule rounds each) and, in half of the sequences, hot-region and shuffle-hot-region "
             "with injected store and region read/write flow; every fourth stream is the malformed stream (regions with a "
@@ -86,6 +88,9 @@ SPEC = {
         "the special engines are exactly {tiflash} (allSpeicalEngines); a store is ordinary or TiFlash",
         "the history counters do not expire during a sequence (TTL 3 minutes)",
         "Go map iteration visits every key exactly once (OrdersOK); the order itself is arbitrary",
+        "overlapping scatter requests are exercised at one gate only (GetStores in selectCandidates of the first peer "
+        "placed); there the interleaving equals `Y then X` because nothing X did before the gate reads a counter – "
+        "other interleavings and the unlocked specialEngines map are not explored",
         "no region has a peer on a tombstone store (PD buries a store only when it holds no peer): needed for the "
         "forced-leader clause only",
         "label keys and values are ASCII: strings.EqualFold is modelled as ASCII case folding (store label keys are generated in mixed case)",
